@@ -2,6 +2,7 @@ package sim
 
 import (
 	"github.com/mlange-42/arche/ecs"
+	"reflect"
 )
 
 // ---------- argument pickers ----------
@@ -186,6 +187,22 @@ func (e *Engine) genCreation(c *cursor, op *COp) {
 			}
 		}
 	}
+	if e.P.EntityCap >= 17000 && len(reg) > 0 {
+		// very large tables: few component sets (so that the same tables fill, empty and fill again), all with the
+		// widest plain component, which is never the only one
+		wide := reg[0]
+		for _, t := range reg {
+			if e.P.Types[t].Kind == "bytes" && e.P.Types[t].Size > e.P.Types[wide].Size {
+				wide = t
+			}
+		}
+		add = []int{wide}
+		for i := 1; i <= 2 && i < len(reg); i++ {
+			if o := reg[(wide+i)%len(reg)]; o != wide && c.n(3) > 0 && e.M.RelMask&(1<<uint(o)) == 0 {
+				add = append(add, o)
+			}
+		}
+	}
 	add = e.limitRelations(0, add)
 	op.Add = add
 	op.Rel = -1
@@ -223,6 +240,11 @@ func (e *Engine) genCreation(c *cursor, op *COp) {
 		if len(op.Add) > 0 {
 			op.Add = append(op.Add, op.Add[0])
 			op.Illegal = "dup-add"
+			if c.n(4) == 0 {
+				for n := 33 + c.n(40); len(op.Add) < n; {
+					op.Add = append(op.Add, op.Add[c.n(len(op.Add))])
+				}
+			}
 		}
 	case 1:
 		if rel >= 0 && len(rels) > 1 {
@@ -385,6 +407,12 @@ func (e *Engine) opNewBatch(c *cursor) *Violation {
 		op.Count = 1 + c.n(e.P.EntityCap*3/4)
 		if c.n(4) == 0 {
 			op.Count = e.P.CapInc*(1+c.n(4)) + c.n(3) - 1 // on and around multiples of the capacity increment
+		}
+	}
+	if e.P.EntityCap >= 17000 {
+		op.Count = 1 + c.n(70)
+		if len(e.M.Alive) < 600 {
+			op.Count = 16300 + c.n(400) // one table of more than 16384 rows, whenever the world is (nearly) empty
 		}
 	}
 	e.genCreation(c, op)
@@ -745,11 +773,21 @@ func (e *Engine) breakExchange(c *cursor, op *COp, me *MEnt, present, absent []i
 		if len(op.Add) > 0 {
 			op.Add = append(op.Add, op.Add[c.n(len(op.Add))])
 			op.Illegal = "dup-add"
+			if c.n(4) == 0 { // a long list (more IDs than a machine word has bits) that keeps repeating itself
+				for n := 33 + c.n(40); len(op.Add) < n; {
+					op.Add = append(op.Add, op.Add[c.n(len(op.Add))])
+				}
+			}
 		}
 	case 4:
 		if len(op.Rem) > 0 {
 			op.Rem = append(op.Rem, op.Rem[c.n(len(op.Rem))])
 			op.Illegal = "dup-rem"
+			if c.n(4) == 0 {
+				for n := 33 + c.n(40); len(op.Rem) < n; {
+					op.Rem = append(op.Rem, op.Rem[c.n(len(op.Rem))])
+				}
+			}
 		}
 	case 5:
 		if len(present) > 0 && (op.Variant == "Exchange" || op.Variant == "Relations.Exchange") {
@@ -1171,7 +1209,7 @@ func (e *Engine) opRes(c *cursor) *Violation {
 		e.M.Res[op.Res] = nil
 		e.S.ResVals[op.Res] = nil
 	case "Get":
-		if present && res.Any != e.S.ResVals[op.Res] {
+		if present && nilPtrToNil(res.Any) != nilPtrToNil(e.S.ResVals[op.Res]) {
 			return e.viol("resource", op, "Resources.Get returned a different pointer")
 		}
 		if !present && res.Any != nil {
@@ -1184,4 +1222,16 @@ func (e *Engine) opRes(c *cursor) *Violation {
 	}
 	e.St.Probes["resource-op"]++
 	return nil
+}
+
+// nilPtrToNil maps a typed nil pointer to the nil interface (the generic Get paths return *T, the ID-based one the
+// stored interface: both spell "a nil pointer was stored").
+func nilPtrToNil(x interface{}) interface{} {
+	if x == nil {
+		return nil
+	}
+	if v := reflect.ValueOf(x); v.Kind() == reflect.Ptr && v.IsNil() {
+		return nil
+	}
+	return x
 }
